@@ -57,6 +57,10 @@ def handle (toks : List String) : String :=
       let s0 := (a0, b0)
       let out : Option (GRat × GRat) :=
         if kind == "abrm" then (ckAtoms p).map fun w => abrmSim w s0
+        else if kind == "abrm_balanced" then (ckAtoms p).bind fun w =>   -- last atoms: the rewinder of `balanced=True`
+          match w.reverse with
+          | q :: rest => some (abrmBalanced q (abrmSim rest.reverse s0))
+          | [] => none
         else if kind == "abrm_nd" then (ckAtoms p).map fun w => abrmNdSim w s0
         else if kind == "abrm_hp" then (hpAtoms p).map fun w => abrmHpSim w zf s0
         else if kind == "blochsim" then (hpAtoms p).map fun w => blochsimSim w zf s0
@@ -69,6 +73,24 @@ def handle (toks : List String) : String :=
       | some s => s!"ok {fmtG s.1} {fmtG s.2}"
       | none => "err bad-op"
     | _, _, _, _, _ => "err bad-op"
+  | some "hppoly" =>
+    -- the polynomial pair of a hard-pulse train (`hpPoly`, coefficient lists of the generated simulation, see
+    -- Props/C19Slr.lean `hpPoly_eval`), the same pair in `ab2rf`'s convention, and its values `zf·A(z)`, `zf·B(z)`
+    -- (blochsim: `zf·z·B(z)`) at the requested points `q = z1,zf1,z2,zf2,…`
+    match kv toks "kind", getGList toks "p", (getGList toks "q").bind pairs with
+    | some kind, some p, some qs =>
+      if kind != "abrm_hp" && kind != "blochsim" then "err bad-op" else
+      match hpAtoms p with
+      | some w =>
+        let ab := hpPoly w
+        let sl := toSlr ab
+        let fl := fun (l : List GRat) => if l.isEmpty then "-" else ",".intercalate (l.map fmtG)
+        let ev := qs.map fun q =>
+          let bz := if kind == "blochsim" then q.1 * peval q.1 ab.2 else peval q.1 ab.2
+          fmtG (q.2 * peval q.1 ab.1) ++ "," ++ fmtG (q.2 * bz)
+        s!"ok a={fl ab.1} b={fl ab.2} sa={fl sl.1} sb={fl sl.2} ev={if ev.isEmpty then "-" else ",".intercalate ev}"
+      | none => "err bad-op"
+    | _, _, _ => "err bad-op"
   | some "ab2rf" =>
     match getGList toks "a", getGList toks "b", getGList toks "c" with
     | some a, some b, some c =>
